@@ -127,6 +127,13 @@ def sweep_templates(repo, rng, thorough):
             "{% for -i in l %}{% endfor %}", "{% for i.a in l %}{% endfor %}", "{% for i() in l %}{% endfor %}", "{% set -x = 1 %}", "{% set x() = 1 %}", "{% set x[0] = 1 %}",
             "{% with -x = 1 %}{% endwith %}", "{% with x.a = 1 %}{% endwith %}", "{% macro m(-a) %}{% endmacro %}", "{% macro m(a.b) %}{% endmacro %}", "{% macro -m() %}{% endmacro %}",
             "{% call(-a) m() %}{% endcall %}", "{% call(a.b) m() %}{% endcall %}", "{% block -b %}{% endblock %}", "{% set x | -upper %}{% endset %}"]
+    # recursion at run time must end in the recursion-limit error, not in the guard page
+    out += ["{% macro m(n) %}{{ m(n) }}{% endmacro %}{{ m(1) }}", "{% macro m(n) %}{% call m(n) %}{% endcall %}{% endmacro %}{{ m(1) }}", "{% include 'main' %}", "{% extends 'main' %}",
+            "{% import 'main' as m %}", "{% from 'main' import x %}", "{% block b %}{{ self.b() }}{% endblock %}", "{% block b %}{{ super() }}{{ self.b() }}{% endblock %}",
+            "{% for i in [1] recursive %}{{ loop([1]) }}{% endfor %}", "{% for i in [1] recursive %}{% for j in [1] recursive %}{{ loop([1]) }}{% endfor %}{% endfor %}",
+            "{% macro a() %}{{ b() }}{% endmacro %}{% macro b() %}{{ a() }}{% endmacro %}{{ a() }}", "{% macro m() %}{{ caller() }}{% endmacro %}{% call m() %}{% include 'main' %}{% endcall %}",
+            "{% set f %}{% include 'main' %}{% endset %}", "{% filter upper %}{% include 'main' %}{% endfilter %}", "{% macro m(n) %}{{ [m(n)]|map('string')|list }}{% endmacro %}{{ m(1) }}",
+            "{% macro m(n) %}{{ n|map(m)|list }}{% endmacro %}{{ m([[[[[[[[[[[[[[[[[[[[[[[[[[[[[[[[[[[[[[[[[[[[[[[[[[[[[[[[[[[[[[1]]]]]]]]]]]]]]]]]]]]]]]]]]]]]]]]]]]]]]]]]]]]]]]]]]]]]]]]]]]]]]]) }}"]
     out += DEEP_DATA
     return out
 
@@ -610,7 +617,7 @@ def main():
         "tools/parser_graph.py (translator parser.rs -> GenParserGraph.v: functions by brace matching, calls of the form self.name( / Self::name(, guards = calls inside with_recursion_guard!(...), nesting loops = loop/while bodies that assign a new ast::Expr node to the variable they read (charged = the body calls self.nest())); recursion or nesting through any other syntax would escape it - the nesting generators are the safety net",
         "Print Assumptions: all C01 theorems closed under the global context"]
     chk.assumptions = ["PARTIAL by nature: theorems cover parser recursion (bounded nesting of calls), the nesting accounting of the parser (height of every accepted expression bounded by the nesting limit, on a model of the accounting), range length arithmetic, slice arithmetic/indexing (C09 model), scope/capture/operand stack underflow on accepted streams (C05 checker); how many bytes of native stack one level costs, native stack depth of other recursion (Value Display/Drop of deep data built at run time), allocation sizes, formatting.rs and third-party crates are only observed by the crash monitor",
-                       "a hang (no answer within the 20 s watchdog) is reported like a crash: the monitor cannot tell an endless loop from slow work; time and memory proportional to a number written in the template are listed as known findings where the engine has no bound"]
+                       "a hang (no answer within the 20 s watchdog) is reported like a crash: the monitor cannot tell an endless loop from slow work; legal but heavy work (arguments of 10^8 / 2^31 items) is only exercised one filter at a time, and a request that misses the watchdog is repeated alone with a longer one before it counts"]
     info = parser_graph.generate(REPO, os.path.join(COQ, "theories", "C01", "GenParserGraph.v"))
     proofs_ok = chk.run_proofs()
     okc, clog = cargo_build(["prog", "c01"], release=False)
@@ -619,11 +626,14 @@ def main():
         chk.violation("harness does not build against the current tree", {"theorem_or_correspondence": "build harness/src/bin/prog.rs", "log": (clog + clog2)[-1500:]}, True)
         chk.finish()
     # ---- templates ----
+    line_groups = []
     if chk.replay:
         rp = json.load(open(chk.replay))["replay"]
-        groups = [("replay", [rp["template"]] if "template" in rp else [])]
+        one = [(rp["template"], rp.get("request_extra") or {})] if "template" in rp else []
         if "regenerate" in rp:  # a template too long to store: label of the nesting generator
-            groups = [("replay", [t for l, t in nesting_templates(True) if l == rp["regenerate"]])]
+            one = [t for l, t in nesting_templates(True) if l == rp["regenerate"]]
+        groups = [("replay", one)] if rp.get("bin", "prog") == "prog" else []
+        line_groups = [("replay", one)] if rp.get("bin") == "c01" else []
     else:
         inbox = []
         for f in sorted(glob.glob(os.path.join(CACHE, "crash-inbox", "*"))):
@@ -633,36 +643,62 @@ def main():
                 pass
         nest = nesting_templates(chk.thorough)
         groups = [("inbox", inbox), ("sweep", sweep_templates(REPO, chk.rng, chk.thorough)), ("nesting", [t for _, t in nest]),
-                  ("pipelines", pipeline_templates(REPO, chk.rng, 400000 if chk.thorough else 12000)),
-                  ("mutated", mutated_fixtures(REPO, chk.rng, 150000 if chk.thorough else 3000))]
+                  ("pipelines", pipeline_templates(REPO, chk.rng, 1200000 if chk.thorough else 12000)),
+                  ("mutated", mutated_fixtures(REPO, chk.rng, 400000 if chk.thorough else 4000)),
+                  ("slices", slice_family(chk.thorough)), ("lexer", lexer_family(chk.thorough)), ("arith", arith_family()), ("oddvalues", odd_values_family(REPO)),
+                  ("multi", multi_template_family())]
+        line_groups = [("linesyntax", line_syntax_family())]
         labels = {t: l for l, t in nest}
     hist = collections.Counter()
     crashes = []
+    crash_extra = {}
     total = 0
     distinct_ok = set()
-    flat = [(g, t) for g, tpls in groups for t in tpls]
-    # heavy requests (long templates) first so that the shards finish together
-    order = sorted(range(len(flat)), key=lambda i: -len(flat[i][1]))
-    reqs = [{"templates": {"main": flat[i][1], "other.txt": "o"}, "main": "main", "ctx": CTX, "ops": ["render"], "debug": (i % 2 == 0)} for i in order]
+    def entries(gs):
+        return [(g, e, {}) if isinstance(e, str) else (g, e[0], e[1] or {}) for g, es in gs for e in es]
+
+    def prog_req(i, t, extra):
+        r = {"templates": {"main": t, "other.txt": "o"}, "main": "main", "ctx": CTX, "ops": ["render"], "debug": (i % 2 == 0)}
+        for k, v in extra.items():
+            if k == "templates":
+                r["templates"].update(v)
+            elif v is not None:
+                r[k] = v
+        return r
+
+    def c01_req(i, t, extra):
+        r = {"template": t, "ctx": CTX, "load_only": True, "stack_kib": 2048}
+        r.update({k: v for k, v in extra.items() if v is not None})
+        return r
+
     t_run = time.time()
-    for rel in (False, True):
-        res = run_parallel("prog", reqs, rel, workers=14, chunk=64)
+    for binname, gs, mk in (("prog", groups, prog_req), ("c01", line_groups, c01_req)):
+      flat = entries(gs)
+      # heavy requests (long templates) first so that the shards finish together
+      order = sorted(range(len(flat)), key=lambda i: -(len(flat[i][1]) + sum(len(x) for x in flat[i][2].get("templates", {}).values())))
+      reqs = [mk(i, flat[i][1], flat[i][2]) for i in order]
+      for rel in (False, True):
+        if not reqs:
+            continue
+        res = run_parallel(binname, reqs, rel, workers=14, chunk=64)
         total += len(res)
         # a request that did not answer within the watchdog while 14 shards (and whatever else) load the machine
-        # gets a second chance alone with a 6 times longer watchdog before it counts as a hang (at most 4 of them)
-        slow = [k for k, r in enumerate(res) if isinstance(r, dict) and r.get("hang")][:4]
+        # gets a second chance alone with a 3 times longer watchdog before it counts as a hang (at most 2 per profile)
+        slow = [k for k, r in enumerate(res) if isinstance(r, dict) and r.get("hang")][:2]
         if slow:
             env2 = dict(ENV)
-            env2["MJVERIF_WATCHDOG_MS"] = str(6 * WATCHDOG_MS)
-            cmd2 = ["bash", "-c", "ulimit -v 8000000; exec " + bin_path("prog", rel)]
+            env2["MJVERIF_WATCHDOG_MS"] = str(3 * WATCHDOG_MS)
+            cmd2 = ["bash", "-c", "ulimit -v 8000000; exec " + bin_path(binname, rel)]
             for k in slow:
                 r2 = _run_chunk(cmd2, [reqs[k]], env2)
                 if r2 and not (isinstance(r2[0], dict) and r2[0].get("hang")):
                     res[k] = r2[0]
                     hist["answered_after_watchdog"] += 1
         for i, r in zip(order, res):
-            gname, t = flat[i]
-            rr = r.get("render", r) if isinstance(r, dict) else {}
+            gname, t, extra = flat[i]
+            rr = r.get("render", r.get("fuel_levels", r)) if isinstance(r, dict) else {}
+            if not isinstance(rr, dict):
+                rr = {}
             if "ok" in rr:
                 hist[gname + "_ok"] += 1
                 if not rel:
@@ -671,6 +707,8 @@ def main():
                 hist[gname + "_err_" + ERR_NAMES.get(rr["err"], str(rr["err"]))] += 1
             else:
                 crashes.append((gname, t, "release" if rel else "debug", crash_kind(r), json.dumps(r)[:700]))
+                if extra:
+                    crash_extra[(t, gname)] = (extra, binname)
     chk.notes["monitor_wall_s"] = round(time.time() - t_run, 1)
     meter = {}
     if not chk.replay:
@@ -699,34 +737,36 @@ def main():
         else:
             remaining.append((gname, t, prof, kind, detail))
     chk.cov["explanation"] = ("Partial verification. Proved in Coq (see theorems): parser call nesting is bounded (call graph of %d functions / %d call edges, %d guarded, regenerated from parser.rs and checked by the verified checker: max rank %d, limit %d); every one of the %d parser loops that nest what they parsed one level deeper per iteration is charged against the nesting limit %d (loop table regenerated from parser.rs), and on the model of that accounting the height of every accepted expression is at most the limit; range length arithmetic stays inside i128 and yields isize elements; slices never panic; accepted instruction streams never underflow. "
-                              "Observed (exploration): %d child-process renders (boundary sweep of every built-in filter/test/function/operator x argument pools incl. 2^62..2^128-1 counts, nesting generators: %d chain shapes and %d recursion shapes at depths 10..20000 around both limits plus products of the two, seeded random filter pipelines, mutated fixtures), debug+release, 2 MiB threads, every error formatted in all forms; crashes seen: %d (known: %d). Stack meter (debug, bytes): %s."
+                              "Observed (exploration): %d child-process renders (boundary sweep of every built-in filter/test/function/operator x argument pools incl. 2^62..2^128-1 counts, nesting generators: %d chain shapes and %d recursion shapes at depths 10..20000 around both limits plus products of the two, seeded random filter pipelines, mutated fixtures; boundary families of the other properties' input spaces: slices and subscripts of every container kind x start/stop/step around the length and at +-2^63, whitespace control of every tag kind x every Unicode White_Space / multi-byte / NUL / BOM text around it x whitespace settings, line statements and custom delimiters, arithmetic at the 2^53 / 2^63 / 2^64 / 2^127 / 2^128 / inf / nan boundaries, odd values through every filter and test, deep and cyclic extends / include / import chains, fuel and recursion limits at their boundaries), debug+release, 2 MiB threads, every error formatted in all forms; crashes seen: %d (known: %d). Stack meter (debug, bytes): %s."
                               % (info["functions"], info["edges"], info["guarded_edges"], info["max_rank"], info["max_recursion"], len(info.get("loops", [])), info.get("max_nesting", 0),
                                  total, len(CHAINS), len(NESTS), len(crashes), len(crashes) - len(remaining),
                                  ", ".join("%s %d" % (k, v["bytes"]) for k, v in sorted(meter.get("debug", {}).items()) if "bytes" in v) + "; tallest accepted AST of the generators: %s nodes (bound %s)" % (meter.get("ast_height", {}).get("max"), meter.get("ast_height", {}).get("bound"))))
     chk.cov["evaluations"] = total
     chk.cov["distinct_nontrivial"] = len(distinct_ok)
     chk.cov["rule"] = "non-trivial = distinct template that loads and renders successfully (the rest end in an error value, which is also an allowed outcome); see explanation for the generators"
-    chk.cov["samples"] = [g[1][len(g[1]) // 3][:200] for g in groups if g[1]]
+    chk.cov["samples"] = [(lambda e: e if isinstance(e, str) else e[0])(g[1][len(g[1]) // 3])[:200] for g in groups + line_groups if g[1]]
     chk.cov["distribution"] = dict(hist)
     chk.cov["parser_graph"] = {k: info[k] for k in ("functions", "edges", "guarded_edges", "max_rank", "max_recursion", "unguarded_cycles", "max_nesting", "loops", "uncharged_loops") if k in info}
     chk.cov["stack_meter"] = meter
     seen = set()
+    remaining.sort(key=lambda c: (len(c[1]), c[1], c[2]))  # the shortest crashing templates make the best replays
     for gname, t, prof, kind, detail in remaining:
         key = (gname, kind, t[:40])
         if key in seen or len(seen) >= 8:
             continue
         seen.add(key)
         rp = {"template": t, "template_len": len(t), "profile": prof, "observed": detail, "generator": gname}
+        if (t, gname) in crash_extra:
+            rp["request_extra"], rp["bin"] = crash_extra[(t, gname)]
         if len(t) > 20000 and not chk.replay and t in labels:
             rp = {"regenerate": labels[t], "template_head": t[:200], "template_len": len(t), "profile": prof, "observed": detail, "generator": gname}
         chk.violation("host process crash: " + kind, rp)
-    if not chk.violations:
-        if info["unguarded_cycles"]:
-            chk.violation("the parser has a recursion cycle that does not pass the recursion guard", {"theorem_or_correspondence": "parser_graph_guarded", "cycles": info["unguarded_cycles"]}, True)
-        elif info.get("uncharged_loops"):
-            chk.violation("the parser has a loop that nests expressions without charging the nesting limit", {"theorem_or_correspondence": "parser_loops_charged", "loops": info["uncharged_loops"]}, True)
-        elif not proofs_ok:
-            chk.violation("proof obligations of C01 do not check", {"theorem_or_correspondence": chk.proof["problems"]}, True)
+    if info["unguarded_cycles"]:
+        chk.violation("the parser has a recursion cycle that does not pass the recursion guard", {"theorem_or_correspondence": "parser_graph_guarded", "cycles": info["unguarded_cycles"]}, True)
+    if info.get("uncharged_loops"):
+        chk.violation("the parser has a loop that nests expressions without charging the nesting limit", {"theorem_or_correspondence": "parser_loops_charged", "loops": info["uncharged_loops"]}, True)
+    if not proofs_ok and not chk.violations:
+        chk.violation("proof obligations of C01 do not check", {"theorem_or_correspondence": chk.proof["problems"]}, True)
     chk.finish()
 
 
